@@ -15,7 +15,7 @@ def _calls(pl):
 
 
 def _steps(pl):
-    """step id -> (has_init, set(outputs), set(signals))"""
+    """step id -> (has_init, set(outputs), set(signal registration keys))"""
     out = {}
     for st in pl[2][1:]:
         out[st[1][1]] = (st[2] == "1", {o[0][1] for o in st[4]}, {g[0][1] for g in st[5]})
@@ -28,7 +28,19 @@ def _what(c):
     if c[0] == "dcall":
         return ("CallableStep.Call(run %r, <native input>) called on the step object %r itself, with a handler returning output id %r"
                 % (c[1][1], c[2][1], c[4][1]))
+    if c[0] == "dsignal":
+        return ("CallableStep.CallSignal(run %r, signal %r, <native data>) called on the step object %r itself"
+                % (c[1][1], c[3][1], c[2][1]))
     return "CallSignal(run %r, step %r, signal %r, <data>)" % (c[1][1], c[2][1], c[3][1])
+
+
+def _own_note(pl, sid, key):
+    for st in pl[2][1:]:
+        if st[1][1] == sid:
+            for g in st[5]:
+                if g[0][1] == key:
+                    return "registration key %r, the signal's own id %r" % (key, g[2][1] if len(g) > 2 else key)
+    return "registration key %r" % key
 
 
 def _is_ok(x):
@@ -162,13 +174,21 @@ def steps_direct(case, obs):
                     return "an unknown step or signal id did not yield an error: " + what
                 continue
             u = iso[0]
+            # the step registers a handler under this key: the signal id is KNOWN, whatever the signal's own id is
+            if is_err and cls in ("badarg", "nosuchstep"):
+                return ("a signal id under which the step registered a handler (%s) is reported as an unknown id (error class %r): %s"
+                        % (_own_note(pl, sid, c[3][1]), cls, what))
+            want_arg = c[4] if c[0] == "dsignal" else (u[1] if _is_ok(u) else None)
+            if c[0] == "dsignal":
+                reached[(sid, run)] = True          # the step's own CallSignal sets the step data up before the signal validates
             if _is_ok(u):
                 reached[(sid, run)] = True          # setupStepData precedes the signal's own validation
                 for e in h:
                     if e[0] != "sg" or e[1][1] != sid or e[2][1] != c[3][1]:
                         return "a foreign handler ran: " + what
-                    if e[4] != u[1]:
-                        return "the signal handler did not receive exactly the unserialized data: " + what
+                    if e[4] != want_arg:
+                        return "the signal handler did not receive exactly the %s: %s" % (
+                            "value passed to CallSignal" if c[0] == "dsignal" else "unserialized data", what)
                     seen.setdefault((sid, run), set()).add(str(e[3]))
                 if len(h) > 1:
                     return "the signal handler ran %d times: %s" % (len(h), what)
@@ -268,6 +288,10 @@ def register(props):
         "rule": "c11steps: generated plugins of 1-3 steps (input scope, 1-3 output scopes, 0-2 signal handlers, all built from the "
                 "schema descriptors of the structured generator: objects with presence rules and defaults, one-ofs, references, "
                 "lists, maps, units, patterns) x 6-11 calls each: raw inputs generated from the input scope and mutated (35%), "
+                "signals are registered under the keys cancel / pause while their OWN ids are those keys (55%), one reusable definition's id "
+                "(20%), each other's keys (15%) or empty (10%); 25% of the signal calls go to CallableStep.CallSignal on the step "
+                "object directly with native data (as unserialized / one leaf violating a constraint / mutated), 12% name the "
+                "signal's own id instead of its key; "
                 "recording handlers returning a declared id with conforming data / mutated data / raw-form data / another "
                 "output's data, or an undeclared id; unknown step ids; signals with known/unknown ids and valid/invalid data; "
                 "22% of the step calls go to CallableStep.Call on the step object DIRECTLY with a native input: as Unserialize "
@@ -288,7 +312,10 @@ def register(props):
                       "and touches nothing, and CallStep = Unserialize ; Call ; Serialize (C11_direct_*, C11_call_step_factors); "
                       "Ok(out, w) iff the handler ran, out is declared, the data validates and w is its serialization; each "
                       "error provenance is assigned exactly under its condition and unknown-step / rejected-input / undeclared-output map "
-                      "to three different Go error types; unknown step or signal ids give errors, never panics, and touch no state; for "
+                      "to three different Go error types; unknown step or signal ids give errors, never panics, and touch no state; a signal "
+                      "is found by the key the step registered it under — CallSignal = lookup by key ; Unserialize ; the step's own "
+                      "CallSignal, which runs the handler once with exactly its argument iff that passes the schema under the key "
+                      "(C11_signal_factors, C11_direct_signal_*); for "
                       "EVERY history of CallStep/CallSignal operations (fold_left) and for every interleaving of setupStepData critical "
                       "sections and handler invocations the initialiser runs exactly once per run id that reaches it — triggered by the "
                       "first arrival — and every handler of a run sees that one value.",
